@@ -23,7 +23,9 @@ VARIABLES case, K        \* K: the inverse cone matrices, computed once (TLC re-
 
 NearSeq(a, b, bits) == Len(a) = Len(b) /\ \A i \in DOMAIN a : FxNear(a[i], b[i], bits, 200)
 Tight == 86        \* Fx truncation (2^-104 per operation) and the Newton reciprocal (2^-96 relative) on entries below 8
-SpaceTight == 86   \* ProPhoto's blue primary has y = 0.0001 (a column of magnitude 10^4 in the primaries matrix): 2^-89 there
+(* (1, 1, 1) -> white: 2^-90; ProPhoto's blue primary has y = 0.0001, a column of magnitude 10^4 in the primaries matrix,
+   which costs the fixed point 13 bits: 2^-89 is reached there *)
+SpaceTight(sp) == IF sp = "prophoto" THEN 86 ELSE 90
 
 NW == Len(WhiteNames)
 AllPairs == {<<i, j>> : i \in 1..NW, j \in 1..NW}
@@ -48,7 +50,7 @@ CasesOfGroup(g) ==
 
 SpaceOK(sp) ==
   LET m == RefRgbToXyz(sp, SpaceWhite(sp))
-  IN /\ NearSeq(FxMatVec(m, Ones3), WP(SpaceWhite(sp)), SpaceTight)
+  IN /\ NearSeq(FxMatVec(m, Ones3), WP(SpaceWhite(sp)), SpaceTight(sp))
      /\ NearSeq(MatMul3T(m, Inv3T(m)), I3, Tight)
      /\ NearSeq(MatMul3T(Inv3T(m), m), I3, Tight)
 
